@@ -24,7 +24,10 @@ class P(vlib.Prop):
             "behind (failed download in a surviving process, three publications in every order, keyring URLs) handed to the real fetchOffline; the entry it "
             "opened is compared with pick_newest and judged by validate_offline (c19_offline_validator_decides). (f) one scenario through the repository's "
             "own `apko build` binary (built with the verif tag): cold, warm, update killed at a hook, offline, recovery, roll-back, each against the CLI "
-            "build without cache. A case is distinct by its term; all are non-trivial.")
+            "build without cache. (g) several index URLs with ONE ETag value behind one shared Cache (the real cacheTransport.get for two URLs held "
+            "concurrently; two repositories, cold cache, overlapping downloads, against the build without cache); update histories under other ETag shapes (140 bytes differing "
+            "in the tail, weak validators with characters base32 expands); the real etagFromResponse + cacheFileFromEtag on sets of ETags up to 300 bytes (CNames: model name vs "
+            "real name, no two ETags share a file name). A case is distinct by its term; all are non-trivial.")
     stages = (
         dict(name="cache", cmd="c19", args=lambda t, s: ["-stage", "all"], timeout=1500),
     )
@@ -68,7 +71,10 @@ class P(vlib.Prop):
                   "advertised name, no advertised entry is newer, whole whenever the advertised entries are: a partial temporary file is never opened; was finding C19-F5); "
                   "c19_offline_all_entries_refuted is about the HYPOTHETICAL old choice among all entries; STILL REFUTED for the code of this run: "
                   "c19_offline_shared_directory_refuted (finding C19-F6: in a directory shared by the cached copies of several files a request is answered with another "
-                  "file's entry — a wrong image offline; repair fixes/C19-F6.patch proved for the model).")
+                  "file's entry — a wrong image offline; repair fixes/C19-F6.patch proved for the model). File names of cached revisions: c19_etag_file_name_injective (for the use "
+                  "goextract reads — the whole encoded etag — the name is injective in (directory, etag), any length), c19_etag_name_cut_refuted (HYPOTHETICAL: a cut name, seeded "
+                  "C19-8), c19_names_validator_decides; REFUTED for the code of this run: c19_etag_name_length_refuted (finding C19-F8: the name is unbounded in the etag; an ETag "
+                  "over 154 bytes cannot be cached and the build with the cache fails).")
     level_note = ("trusted: Coq kernel, Go harness/printer and its path abstraction, strace; modelled not verified: the Go text of fetchAndCache / head / get / retrieveAndSaveFile / "
                   "AdvertiseCachedFile / ExpandApk / cachePackage / cachedPackage / PackageData / fetchOffline / flightCache.Do / apkCache.get, golang.org/x/sync/singleflight and "
                   "sync.Once themselves, the host filesystem, gzip/tar/RSA, net/http; "
